@@ -190,6 +190,19 @@ fn der_uint(v: &rsa::BigUint, out: &mut Vec<u8>) {
     out.extend_from_slice(&b);
 }
 
+/// PrivateKeyInfo ::= SEQUENCE { version 0, AlgorithmIdentifier { rsaEncryption, NULL }, OCTET STRING { RSAPrivateKey } }
+pub fn pkcs8_wrap(pkcs1_der: &[u8]) -> Vec<u8> {
+    let mut body = vec![0x02, 0x01, 0x00];
+    body.extend_from_slice(&[0x30, 0x0d, 0x06, 0x09, 0x2a, 0x86, 0x48, 0x86, 0xf7, 0x0d, 0x01, 0x01, 0x01, 0x05, 0x00]);
+    body.push(0x04);
+    der_len(pkcs1_der.len(), &mut body);
+    body.extend_from_slice(pkcs1_der);
+    let mut out = vec![0x30];
+    der_len(body.len(), &mut out);
+    out.extend_from_slice(&body);
+    out
+}
+
 /// RSAPrivateKey ::= SEQUENCE { version 0, n, e, d, p, q, dP, dQ, qInv }
 pub fn pkcs1_private_der(n: &rsa::BigUint, e: &rsa::BigUint, d: &rsa::BigUint, p: &rsa::BigUint, q: &rsa::BigUint, dp: &rsa::BigUint, dq: &rsa::BigUint, qinv: &rsa::BigUint) -> Vec<u8> {
     let mut body = Vec::new();
